@@ -158,3 +158,49 @@ func consumedCountsTheDeclaredLength(c *core.Ctx) {
 	})
 	c.Check(n >= 1, rule, "success returns found", f.Decl.Pos(), "decodePathAttr has no success return with three results")
 }
+
+// nlriFamilyComesFromTheAFI: the address of a decoded NLRI has the family of the field it was read from (AFI).  A
+// constructor that guesses the family from the address bytes (bnet.IPFromBytes, via net.IP.To4) turns an IPv6 NLRI
+// from ::ffff:0:0/96 into an IPv4 address that keeps the IPv6 prefix length — an IPv4 prefix with a length of up to
+// 128 is handed to the session layer and installed.  Rule: every address given to NewPfx in deserializePrefix comes
+// from a family-explicit constructor.
+func nlriFamilyComesFromTheAFI(c *core.Ctx) {
+	const rule = "nlri-family-comes-from-the-afi"
+	f := c.MustFunc(pktPkg + ".deserializePrefix")
+	if f == nil {
+		return
+	}
+	c.Analysed(f)
+	explicit := map[string]bool{"IPv4FromBytes": true, "IPv4": true, "IPv4FromOctets": true, "IPv6": true, "IPv6FromBlocks": true}
+	n := 0
+	for _, call := range core.Calls(f.Pkg, f.Decl.Body, core.KeyIs("net.NewPfx")) {
+		if len(call.Args) != 2 {
+			continue
+		}
+		n++
+		var srcs []ast.Expr
+		if id, ok := core.Unparen(call.Args[0]).(*ast.Ident); ok {
+			if o := core.ObjOf(f.Pkg, id); o != nil {
+				srcs = core.DefsOf(f, o)
+			}
+		} else {
+			srcs = []ast.Expr{call.Args[0]}
+		}
+		ok := len(srcs) > 0
+		via := ""
+		for _, s := range srcs {
+			sc, isCall := core.Unparen(s).(*ast.CallExpr)
+			if !isCall {
+				ok, via = false, core.ExprString(s)
+				continue
+			}
+			cal := core.Callee(f.Pkg, sc)
+			if cal == nil || !explicit[cal.Name()] {
+				ok, via = false, core.ExprString(sc.Fun)
+			}
+		}
+		c.Check(ok, rule, fmt.Sprintf("%s NewPfx #%d gets a family-explicit address", f.Name(), n), call.Pos(),
+			"the NLRI's address is built by "+via+", which takes the family from the address bytes: an IPv6 NLRI from the IPv4-mapped block becomes an IPv4 address with the IPv6 prefix length (e.g. 10.0.0.0/104) and is installed")
+	}
+	c.Check(n >= 2, rule, "NewPfx calls found", f.Decl.Pos(), fmt.Sprintf("found %d NewPfx calls in deserializePrefix, expected one per family", n))
+}
